@@ -336,3 +336,10 @@ package postgres
 //@ requires cmd != nil
 //@ ensures err != nil ==> result == nil
 //@ ensures err == nil ==> result != nil
+
+// Graceful shutdown deletes the stored data only when the operator asked for it (C06).
+//@ func (*PostgresStore).Stop
+//@ props C06
+//@ nopanic C13
+//@ requires s != nil && s.config != nil && s.db != nil && s.sq != nil && !closed(s.sq)
+//@ site call Reset assert s.config.Reset
